@@ -379,6 +379,7 @@ def run(report, p):
     lazy_reuse_rule(report, p, 'R2.8', [need(cmds, 'create').qual], 'create')
 
     # ---- rules shared with other properties (same mechanism, same rule, reported under every property it can break)
+    include_rules(report, p, 'c12', ['R12.1'], 'exactly the files the effective patterns do not exclude are recorded: the traversal must match against the same patterns, relative to the same root, at every depth')
     include_rules(report, p, 'c12', ['R12.12'], 'exactly the files the effective patterns do not exclude are recorded: the one pathspec of the run must not change while the tree is traversed')
     include_rules(report, p, 'c03', ['R3.11'], 'create logs every file it records; a logger that raises aborts the run before the generation is written')
     include_rules(report, p, 'c08', ['R8.1', 'R8.2'], 'records must land in the deepest history with a path relative to its root (routing)')
